@@ -2,7 +2,7 @@
 import re
 
 from analysis import (Prov, Guards, fmt, fmt_short, walk, roots, short, comparison, find_calls, callee_matches,
-                      must_pass, const_int_of)
+                      must_pass, const_int_of, normalised_cmp)
 from facts import AnchorError, strip_closure
 from harness import Rule
 from c01 import bool_pass_edges
@@ -15,9 +15,11 @@ EXPLANATION = (
     "initial_pass, decode, final_pass (only for packets with a source id) and the packet is forwarded only past both. R2: on the "
     "Err edge of allows(Ip) / allows(NodeId) the matching ban map receives that key with ban_duration.map(|d| now + d) and false "
     "is returned; exceeding the total quota drops without banning. R3: the writers of the permit/ban list are the enumerated set "
-    "and the unban sweep keeps entries that are permanent or not yet due. The larger part of this property - the GCRA bound "
-    "'at most burst + rate x window admitted, conforming traffic never refused' and prune-invariance - is a statement about "
-    "integer time sequences for which no shape rule is a necessary condition: it is NOT decided here.")
+    "and the unban sweep keeps entries that are permanent or not yet due. R4: each LimitKind is routed to its own limiter and key, a "
+    "refused request leaves the bucket untouched, the refusal test and the bucket update have the GCRA affine forms (refuse iff now < "
+    "tat + t*tokens - tau; accept: tat := max(now, tat) + t*tokens) and prune keeps every bucket whose tat is not in the past. The "
+    "quantitative statement itself - 'at most burst + rate x window admitted in any window, conforming traffic never refused' - "
+    "is about integer time sequences and is NOT decided here; R4 only fixes the formulas it rests on.")
 NOT_DECIDED = ["the GCRA arithmetic of the rate limiter (burst + rate x window; conforming traffic never refused)", "that RateLimiter::prune changes no decision",
                "max_nodes_per_ip / max_bans_per_ip escalation counts"]
 TRUSTED = ["RateLimiter::allows returns Err exactly when the quota is exceeded (not analysed)"]
@@ -315,6 +317,59 @@ def r4(ctx):
             not any(x in r_accept for x in toosoon) and not any(o in r_refuse for o in oks)
     rule.check(okk, "Limiter::allows: refused (now < earliest) -> Err without touching the bucket; accepted -> bucket advanced, Ok", "limiter|bookkeeping",
                "Limiter::allows advances the bucket of a refused request or refuses outside `now < earliest_time`", loc=la.loc(la.line))
+    # the accepted request advances the bucket from max(now, old tat): idle time is not credited beyond a full bucket
+    from analysis import linear
+
+    def tat_atom(x):
+        if x[0] == "call" and short(x[1]).endswith("Ord::max") and len(x[2]) == 2:
+            sides = sorted(fmt_short(y) for y in x[2])
+            if any("time_since_start" in y and "or_insert" not in y for y in sides) and any("or_insert" in y for y in sides):
+                return "max(now,tat)"
+        if x[0] == "field" and x[2] == "0" and x[1][0] == "bin" and x[1][1] == "MulWithOverflow" and {fmt_short(x[1][2]), fmt_short(x[1][3])} == {"self.t", "tokens"}:
+            return "t*tokens"
+        if x[0] == "bin" and x[1] == "Mul" and {fmt_short(x[2]), fmt_short(x[3])} == {"self.t", "tokens"}:
+            return "t*tokens"
+        if x[0] == "call" and short(x[1]).endswith("Entry::or_insert"):
+            return "tat"
+        if fmt_short(x) == "Duration::as_nanos(time_since_start)":
+            return "now"
+        return None
+    forms = []
+    for blk in la.blocks:
+        for s_ in blk.stmts:
+            if s_.k == "a" and s_.lhs.proj == ("*",) and blk.idx in la.live_blocks() and "u64" in la.local_ty(s_.lhs.local):
+                e = p.rvalue(s_.rv, blk.idx)
+                alts = e[1] if e[0] == "phi" else (e,)
+                forms.append([linear(a, tat_atom) for a in alts])
+    okk = bool(forms)
+    for alts in forms:
+        direct = alts == [({"max(now,tat)": 1, "t*tokens": 1}, 0)]
+        branch = sorted(str(a) for a in alts) == sorted(str(a) for a in [({"now": 1, "t*tokens": 1}, 0), ({"tat": 1, "t*tokens": 1}, 0)])
+        if not (direct or branch):
+            okk = False
+    rule.check(okk, "accepted request: tat := max(now, tat) + t * tokens", "limiter|tat-update",
+               "Limiter::allows advances the bucket as %s instead of max(now, tat) + t*tokens: an idle key is credited its whole idle time (unbounded burst), and pruning the key changes later decisions" % forms,
+               loc=la.loc(la.line))
+    # the conformance test: refuse iff now < tat + t*tokens - tau
+    def conf_atom(x):
+        a = tat_atom(x)
+        if a:
+            return a
+        if fmt_short(x) == "self.tau":
+            return "tau"
+        return None
+    conf = []
+    for bi, t, e in g.switches():
+        nc = normalised_cmp(e, conf_atom)
+        if nc and set(nc[0]) == {"now", "tat", "t*tokens", "tau"}:
+            conf.append(nc)
+    okc = len(conf) == 1
+    if okc:
+        d, k, op = conf[0]
+        s_ = d["now"]
+        okc = k == 0 and d == {"now": s_, "tat": -s_, "t*tokens": -s_, "tau": s_} and ((s_ == 1 and op == "<") or (s_ == -1 and op == ">"))
+    rule.check(okc, "refusal test: now < (tat + t*tokens) - tau", "limiter|conformance-test",
+               "Limiter::allows refuses on %s instead of now < tat + t*tokens - tau" % (conf,), loc=la.loc(la.line))
     # prune
     pc = facts.one(re.escape(RL + "Limiter::<Key>::prune") + r"::\{closure#0\}")
     rule.analysed(pc)
